@@ -178,7 +178,12 @@ func solveOneR(file string, timeoutS int, seed int, secondRound bool, hint *proo
 			for _, em := range []bool{false, true} {
 				n++
 				go func(sd int, em bool) {
-					ch2 <- runSolver(ctx2, seedSolver(sd, em), file, timeoutS)
+					// other seeds help against unlucky heuristics, and then they help quickly
+					t2 := timeoutS
+					if t2 > 25 {
+						t2 = 25
+					}
+					ch2 <- runSolver(ctx2, seedSolver(sd, em), file, t2)
 				}(sd, em)
 			}
 		}
@@ -293,7 +298,11 @@ func solveAll(vcs []*VC, dir string, timeoutS int, seed int, keep bool) {
 					d2 := vcDigest(txt)
 					txt += "(get-model)\n"
 					if err := os.WriteFile(file, []byte(txt), 0o644); err == nil {
-						r2 := solveOneR(file, to, seed, true, hint)
+						to2 := to
+						if to2 > 40 && (hint == nil || hint.digest != d2) {
+							to2 = 40 // whole-prefix fallback of an obligation never seen discharged: bounded effort
+						}
+						r2 := solveOneR(file, to2, seed, false, hint)
 						r2.secs += r.secs
 						r = r2
 						if r.result == "unsat" {
